@@ -99,7 +99,9 @@ class C04(Prop):
             for _ in range(rng.randint(5, length)):
                 g.step()
                 if rng.random() < 0.1:
-                    g.ops.append(rng.choice([["delbucket", "ghost"], ["update", "ghost", {"name": "x"}], ["update", g.buckets[0], {}]]))
+                    g.ops.append(rng.choice([["delbucket", "ghost"], ["update", "ghost", {"name": "x"}], ["update", g.buckets[0], {}],
+                                             ["insert", "ghost", storegen.rand_ev(rng)], ["bulk", "ghost", [storegen.rand_ev(rng)]],
+                                             ["create", g.buckets[0], storegen.mk_meta(rng, "x")]]))
             out.append(("malformed-history-raw", {"backend": "sqlite", "raw": True, "ops": [[0] + o for o in g.ops]}))
         return out
 
